@@ -499,6 +499,29 @@ func runSock(c SockCase) (vs []evid.Violation, info sockInfo) {
 		fail("liveness", "no call succeeded on a healthy connection after the last cut")
 		return vs, info
 	}
+	// The sync request may overtake the callback's re-subscribe requests on the wire (both compete for the
+	// transport's sender), so wait until the server has seen them before it is told to notify.
+	{
+		deadline := time.Now().Add(liveness)
+		for {
+			srv.mu.Lock()
+			missing := ""
+			for _, ss := range subs {
+				if final.subFrames[ss.token] == 0 {
+					missing = ss.token
+				}
+			}
+			srv.mu.Unlock()
+			if missing == "" {
+				break
+			}
+			if time.Now().After(deadline) {
+				fail("resubscribe", "a configured subscription was not re-requested on the surviving connection within %s\n%s, connection %d", liveness, missing, final.n)
+				return vs, info
+			}
+			time.Sleep(200 * time.Microsecond)
+		}
+	}
 	final.cmd <- "final"
 	for _, ss := range subs {
 		ss := ss
